@@ -129,7 +129,14 @@ func Lt(t *Thread, x, y Value) (bool, error) {
 	return false, compareError(x, y)
 }
 
+// maxIntAsFloat is 2^63, the smallest float larger than all int64 values.
+const maxIntAsFloat = float64(1 << 63)
+
 func ltIntAndFloat(n int64, f float64) bool {
+	if f >= maxIntAsFloat {
+		// f is larger than any integer (and int64(f) would overflow)
+		return true
+	}
 	nf := int64(f)
 	if float64(nf) == f {
 		return n < nf
@@ -138,6 +145,10 @@ func ltIntAndFloat(n int64, f float64) bool {
 }
 
 func ltFloatAndInt(f float64, n int64) bool {
+	if f >= maxIntAsFloat {
+		// f is larger than any integer (and int64(f) would overflow)
+		return false
+	}
 	nf := int64(f)
 	if float64(nf) == f {
 		return nf < n
@@ -146,6 +157,10 @@ func ltFloatAndInt(f float64, n int64) bool {
 }
 
 func leIntAndFloat(n int64, f float64) bool {
+	if f >= maxIntAsFloat {
+		// f is larger than any integer (and int64(f) would overflow)
+		return true
+	}
 	nf := int64(f)
 	if float64(nf) == f {
 		return n <= nf
@@ -154,6 +169,10 @@ func leIntAndFloat(n int64, f float64) bool {
 }
 
 func leFloatAndInt(f float64, n int64) bool {
+	if f >= maxIntAsFloat {
+		// f is larger than any integer (and int64(f) would overflow)
+		return false
+	}
 	nf := int64(f)
 	if float64(nf) == f {
 		return nf <= n
